@@ -248,8 +248,31 @@ def r6(ctx, r):
     # the roots are written nowhere else
     fb = ctx.fb()
     others = [(f, e) for f in fb.in_file(AF) if f.ok and f is not fd for e in f.stmts() if asg(e.node) and show(strip_casts(asg(e.node)[0])).endswith(("staticsRoot", "templatesRoot", "->root"))]
+    # … nor handed to anything that could write them: a root passed as a NON-CONST reference (or its address taken) lets the callee
+    # re-point it — `refreshRoot(dir, _fs->staticsRoot)` — without a single assignment to the field appearing anywhere
+    def root_member(x):
+        return x.get("k") == "member" and x["n"].endswith(("::staticsRoot", "::templatesRoot", "FsState::root"))
+    for f in fb.in_file(AF):
+        if not f.ok or f is fd:
+            continue
+        for e in f.stmts():
+            n = e.node
+            if n.get("k") in ("call", "mcall") and n.get("callee"):
+                cal = [g for g in fb.by_name.get(n["callee"], []) if g.ok]
+                for ai, a in enumerate(n.get("args", [])):
+                    a0 = strip_casts(a)
+                    if a0 is None or not root_member(a0):
+                        continue
+                    ptypes = {g.params[ai]["t"] for g in cal if ai < len(g.params)}
+                    if any(t.rstrip().endswith("&") and not t.lstrip().startswith("const ") for t in ptypes):
+                        others.append((f, e))
+            if n.get("k") == "un" and n.get("op") == "&" and root_member(strip_casts(n.get("v") or {})):
+                others.append((f, e))
+            if n.get("k") == "mcall" and root_member(strip_casts(n.get("obj") or {})) and last(n.get("callee", "")) in ("assign", "swap", "clear", "operator=", "operator/=", "operator+=", "append", "concat", "replace_filename", "remove_filename", "make_preferred"):
+                others.append((f, e))
     r.instance()
-    r.expect(not others, others[0][0] if others else fd, others[0][1] if others else None, "root rewritten", "a containment root is written outside fromDirectory", okdesc="roots written only at construction")
+    r.expect(not others, others[0][0] if others else fd, others[0][1] if others else None, "root rewritten", "a containment root is written (or handed out by non-const reference) outside fromDirectory: the base every lookup is contained "
+             "in is no longer pinned at construction — re-resolved after `static/` was replaced by a symlink, it follows the link and lookups are 'contained' in an outside directory", okdesc="roots written only at construction")
 
 
 def r7(ctx, r):
